@@ -10,6 +10,7 @@ import (
 	"fmt"
 	"hash/fnv"
 	"os"
+	"runtime"
 	"runtime/debug"
 	"sort"
 	"strconv"
@@ -95,6 +96,9 @@ type Harness struct {
 	// Enumerable: the decision tree of Body is finite and small; SIM_MODE=enumerate walks it
 	// completely (depth-first over the recorded decisions). Implies a fixed scheduling strategy.
 	Enumerable bool
+	// OneRunPerProcess: the system under test touches process-wide singletons; a violation is
+	// neither shrunk nor re-executed in this process (cmd/vcheck replays it in a fresh one).
+	OneRunPerProcess bool
 	// WarpTo2026 sleeps the fake clock to 2026 before starting (clock-derived ids).
 	WarpTo2026 bool
 }
@@ -329,6 +333,7 @@ type ViolationReport struct {
 	ShrunkLen int        `json:"shrunk_len"`
 	Reproduced bool      `json:"reproduced"`
 	Known      bool      `json:"known"`
+	NeedsReplay bool     `json:"needs_replay,omitempty"`
 }
 
 func envInt(name string, def int64) int64 {
@@ -476,6 +481,18 @@ func batchMain(t *testing.T, h *Harness) {
 func reportViolation(t *testing.T, h *Harness, rr RunResult) ViolationReport {
 	class := rr.Violation.Class()
 	vr := ViolationReport{Seed: rr.Seed, Violation: rr.Violation, TapeLen: len(rr.Tape)}
+	if h.OneRunPerProcess {
+		dir := os.Getenv("SIM_REPLAY_DIR")
+		if dir == "" {
+			dir = os.TempDir()
+		}
+		os.MkdirAll(dir, 0o755)
+		rf := ReplayFile{Harness: h.Name, Property: h.Property, Seed: rr.Seed, Class: class, Msg: rr.Violation.Msg, LogHash: rr.LogHash, Scenario: rr.Scenario, Tape: rr.Tape}
+		path := fmt.Sprintf("%s/%s-%s-%d.json", dir, h.Property, sanitize(rr.Violation.Oracle), rr.Seed)
+		writeJSON(path, rf)
+		vr.Replay, vr.ShrunkLen, vr.NeedsReplay = path, len(rr.Tape), true
+		return vr
+	}
 	shrinkBudget := time.Duration(envInt("SIM_SHRINK_S", 60)) * time.Second
 	best := Shrink(rr.Tape, class, shrinkBudget, func(cand []simrt.Decision) (string, []simrt.Decision) {
 		r := Execute(t, h, simrt.ReplayTape(rr.Seed, cand, false), false)
@@ -668,4 +685,55 @@ func enumerateMain(t *testing.T, h *Harness) {
 	}
 	sort.Strings(out.States)
 	writeJSON(os.Getenv("SIM_OUT"), out)
+}
+
+// BlockedSummary lists, for every goroutine of the process, the innermost frame whose function
+// name contains one of the given substrings, with counts (diagnosis of hangs; call it from the
+// body or from Post while the bubble's goroutines still exist).
+func BlockedSummary(substr ...string) []string {
+	buf := make([]byte, 8<<20)
+	n := runtime.Stack(buf, true)
+	counts := map[string]int{}
+	for _, g := range strings.Split(string(buf[:n]), "\n\n") {
+		lines := strings.Split(g, "\n")
+		if len(lines) < 2 {
+			continue
+		}
+		state := lines[0]
+		if i := strings.Index(state, "["); i >= 0 {
+			state = strings.TrimSuffix(state[i:], ":")
+		}
+		for i := 1; i+1 < len(lines); i += 2 {
+			fn := lines[i]
+			hit := false
+			for _, sub := range substr {
+				if strings.Contains(fn, sub) {
+					hit = true
+				}
+			}
+			if hit {
+				loc := strings.TrimSpace(lines[i+1])
+				if j := strings.LastIndex(loc, "/"); j >= 0 {
+					loc = loc[j+1:]
+				}
+				if j := strings.Index(loc, " "); j >= 0 {
+					loc = loc[:j]
+				}
+				if j := strings.Index(fn, "("); j > 0 && strings.HasSuffix(fn, ")") {
+					fn = fn[:strings.LastIndex(fn, "(")]
+				}
+				if j := strings.LastIndex(fn, "/"); j >= 0 {
+					fn = fn[j+1:]
+				}
+				counts[fn+"@"+loc+" "+state]++
+				break
+			}
+		}
+	}
+	var out []string
+	for k, v := range counts {
+		out = append(out, fmt.Sprintf("%dx %s", v, k))
+	}
+	sort.Strings(out)
+	return out
 }
